@@ -526,3 +526,48 @@ pub fn seq_from_rel(n: Option<relative::LockTime>, rbf: bool) -> Sequence {
         }
     }
 }
+
+/// Keep only signatures that verify against the reference digests (used in the corruption
+/// configuration, where a flipped bit may have damaged a signature in transit).
+pub fn drop_invalid_sigs(env: &crate::sim::Env, tx: &Transaction, idx: usize, sat: &mut WorldSat) {
+    let prevouts: Vec<TxOut> = env.inputs.iter().map(|i| i.utxo.clone()).collect();
+    if tx.input.len() != prevouts.len() {
+        sat.ecdsa.clear();
+        sat.tap_key.clear();
+        sat.tap_script.clear();
+        return;
+    }
+    let ic = &env.inputs[idx];
+    let script = ic.desc.explicit_script().ok();
+    let secp = &env.secp;
+    let uni = &env.uni;
+    sat.ecdsa.retain(|k, sig| {
+        let pkb = uni.keys[*k].public.to_bytes();
+        let ctx = match ecdsa_ctx_for(ic.kind, &ic.spk, script.as_ref(), script.as_ref(), &pkb) {
+            Some(c) => c,
+            None => return false,
+        };
+        match ref_digest(tx, &prevouts, idx, &ctx, sig.sighash_type.to_u32()) {
+            Ok(d) => secp.verify_ecdsa(&Message::from_digest(d), &sig.signature, &uni.keys[*k].public.inner).is_ok(),
+            Err(_) => false,
+        }
+    });
+    let spk = ic.spk.as_bytes().to_vec();
+    sat.tap_key.retain(|_, sig| {
+        if spk.len() != 34 {
+            return false;
+        }
+        let q = match secp256k1::XOnlyPublicKey::from_slice(&spk[2..]) {
+            Ok(q) => q,
+            Err(_) => return false,
+        };
+        match ref_digest(tx, &prevouts, idx, &SpendCtx::TapKey, sig.sighash_type as u32) {
+            Ok(d) => secp.verify_schnorr(&sig.signature, &Message::from_digest(d), &q).is_ok(),
+            Err(_) => false,
+        }
+    });
+    sat.tap_script.retain(|(k, lh), sig| match ref_digest(tx, &prevouts, idx, &SpendCtx::TapLeaf { leaf_hash: *lh }, sig.sighash_type as u32) {
+        Ok(d) => secp.verify_schnorr(&sig.signature, &Message::from_digest(d), &uni.keys[*k].xonly).is_ok(),
+        Err(_) => false,
+    });
+}
